@@ -49,18 +49,30 @@ LpS         == <<FUint("frag_index", N(82)), FUint("frag_count", N(83)), FBytes(
                  FBool("non_discovery", N(844)), FBytes("prefix_announcement", N(848)), FBytes("fragment", N(80))>>
 
 Packets == {"interest", "data", "cert", "lp"}
+(* Nested levels enumerated on their own: the element sequences INSIDE the SignatureInfo of an Interest / Data /
+   certificate and inside MetaInfo, each sequence wrapped into a fixed well-formed frame of the parent packet
+   (FrameOf) and given to the parent's decoder.  ignore_critical as the format documents it: strict for the
+   Interest's SignatureInfo and for MetaInfo, lenient for the Data / certificate SignatureInfo. *)
+NestedPks == {"interest.si", "data.si", "cert.si", "data.meta"}
 SchemaOfPk(pk) == CASE pk = "interest" -> InterestS [] pk = "data" -> DataS [] pk = "cert" -> CertS [] pk = "lp" -> LpS
-IcOfPk(pk)     == pk = "lp"
+                    [] pk \in {"interest.si", "data.si"} -> SigInfoS [] pk = "cert.si" -> CertSigInfoS
+                    [] pk = "data.meta" -> MetaInfoS
+IcOfPk(pk)     == pk \in {"lp", "data.si", "cert.si"}
+ParentOf(pk)   == CASE pk = "interest.si" -> "interest" [] pk \in {"data.si", "data.meta"} -> "data" [] pk = "cert.si" -> "cert"
+NestedPrefix(pk) == CASE pk = "interest.si" -> "signature_info/" [] pk \in {"data.si", "cert.si"} -> "signature_info/"
+                      [] pk = "data.meta" -> "meta_info/" [] OTHER -> ""
 OuterType(pk)  == CASE pk = "interest" -> N(5) [] pk \in {"data", "cert"} -> N(6) [] pk = "lp" -> N(100) [] pk = "name" -> N(7)
 
 \* ------------------------------------------------------------------ what the decoder answers (machine + post-checks)
 NamePresent(out) == out[1].k = "name"
 LpUnsupported(out) == out[1].k # "none" \/ out[2].k # "none"
 Verdict(pk, st) == IF st.status # "accept" THEN "reject"
+                   ELSE IF pk \in NestedPks THEN "accept"
                    ELSE IF pk \in {"interest", "data", "cert"} /\ ~NamePresent(st.out) THEN "reject"
                    ELSE IF pk = "lp" /\ LpUnsupported(st.out) THEN "reject"
                    ELSE "accept"
-Why(pk, st) == IF st.status # "accept" THEN st.why
+Why(pk, st) == IF st.status # "accept" THEN NestedPrefix(pk) \o st.why
+               ELSE IF pk \in NestedPks THEN ""
                ELSE IF pk \in {"interest", "data", "cert"} /\ ~NamePresent(st.out) THEN "missing-name"
                ELSE IF pk = "lp" /\ LpUnsupported(st.out) THEN "lp-fragmentation-unsupported"
                ELSE ""
@@ -200,14 +212,43 @@ NameBody == <<CompA, Leaf(N(8), 0, <<>>), Leaf(N(54), 2, <<R(1, 1), R(0, 1)>>), 
               Leaf(N(65535), 1, B(1)), Leaf(N(0), 1, B(1)), Leaf(N(8), 253, <<R(120, 253)>>)>>
 NameTail == <<Bad(Leaf(N(8), 1, B(98))), Trunc, Bad(Leaf(N(8), 0, <<>>)), CutLen(8), CutType>>
 
+\* nested levels: children of SignatureInfo (every optional field present / absent, any order, duplicated) ...
+AddDescOk == Node(N(258), <<Node(N(512), <<Leaf(N(513), 1, B(107)), Leaf(N(514), 1, B(118))>>)>>)
+SigBody == <<Leaf(N(27), 1, B(3)), Node(N(28), <<NameOk>>), Validity, AddDescOk, UnkCrit, UnkNonCrit,
+             Leaf(N(40), 2, <<R(1, 1), R(2, 1)>>), Leaf(N(38), 4, <<R(9, 4)>>), Leaf(N(42), 1, B(7)),
+             Leaf(N(27), 3, <<R(0, 3)>>), Node(N(28), <<Leaf(N(29), 2, <<R(5, 2)>>)>>), Node(N(28), <<NameBadComp>>)>>
+\* in an Interest / Data SignatureInfo the two certificate elements are unrecognised (opaque): 253 critical, 258 not
+SigBodyPlain == [SigBody EXCEPT ![3] = Leaf(N(253), 3, <<R(1, 3)>>), ![4] = Leaf(N(258), 2, <<R(2, 2)>>)]
+SigTail == <<Bad(Leaf(N(40), 1, B(9))), CutLen(40)>>
+\* ... and of MetaInfo
+MetaBody == <<Leaf(N(24), 1, B(2)), Leaf(N(25), 2, <<R(3, 1), R(232, 1)>>), Leaf(N(26), 3, <<R(50, 1), R(1, 1), R(9, 1)>>),
+              UnkCrit, UnkNonCrit, Leaf(N(24), 3, <<R(0, 3)>>), Leaf(N(25), 8, <<R(0, 7), R(1, 1)>>)>>
+MetaTail == <<Bad(Leaf(N(26), 1, B(9))), CutLen(25)>>
+\* the fixed frame around a nested sequence: elements before / type of the container / elements after
+FrameOf(pk) ==
+  CASE pk = "interest.si" -> [pre |-> <<NameTwo, Leaf(N(10), 4, <<R(1, 4)>>), Leaf(N(36), 2, <<R(7, 2)>>)>>, t |-> N(44),
+                              post |-> <<Leaf(N(46), 4, <<R(5, 4)>>)>>, field |-> 9]
+    [] pk = "data.si"     -> [pre |-> <<NameOk, MetaOk, Leaf(N(21), 3, <<R(65, 3)>>)>>, t |-> N(22),
+                              post |-> <<Leaf(N(23), 4, <<R(5, 4)>>)>>, field |-> 4]
+    [] pk = "cert.si"     -> [pre |-> <<NameTwo, MetaOk, Leaf(N(21), 3, <<R(48, 3)>>)>>, t |-> N(22),
+                              post |-> <<Leaf(N(23), 4, <<R(5, 4)>>)>>, field |-> 4]
+    [] pk = "data.meta"   -> [pre |-> <<NameOk>>, t |-> N(20),
+                              post |-> <<Leaf(N(21), 3, <<R(65, 3)>>), SigInfoOk(N(22)), Leaf(N(23), 4, <<R(5, 4)>>)>>, field |-> 2]
+
 BodyOf(pk) == CASE pk = "interest" -> InterestBody [] pk = "data" -> DataBody [] pk = "cert" -> CertBody
                 [] pk = "lp" -> LpBody [] pk = "name" -> NameBody
+                [] pk \in {"interest.si", "data.si"} -> SigBodyPlain [] pk = "cert.si" -> SigBody [] pk = "data.meta" -> MetaBody
 TailAll(pk) == CASE pk = "interest" -> InterestTail [] pk = "data" -> DataTail [] pk = "cert" -> CertTail
                  [] pk = "lp" -> LpTail [] pk = "name" -> NameTail
+                 [] pk \in {"interest.si", "data.si", "cert.si"} -> SigTail [] pk = "data.meta" -> MetaTail
 MiniN == 9
 RedN(pk) == CASE pk = "interest" -> 15 [] pk = "data" -> 14 [] pk = "cert" -> 12 [] pk = "lp" -> 14 [] pk = "name" -> 7
+              [] OTHER -> 9
+\* nested levels: mini = the first 6 letters (both optional certificate fields, unknown critical / non-critical)
 AlphaOf(pk, lvl) == LET A == BodyOf(pk) IN
-                    IF lvl >= 2 \/ pk = "name" THEN A ELSE SubSeq(A, 1, IF lvl = 1 THEN RedN(pk) ELSE MiniN)
+                    IF lvl >= 2 \/ pk = "name" THEN A
+                    ELSE IF pk \in NestedPks THEN SubSeq(A, 1, IF lvl = 1 THEN 9 ELSE IF pk = "data.meta" THEN 5 ELSE 6)
+                    ELSE SubSeq(A, 1, IF lvl = 1 THEN RedN(pk) ELSE MiniN)
 TailOf(pk, lvl) == IF lvl = 0 THEN SubSeq(TailAll(pk), 1, 2) ELSE TailAll(pk)
 
 \* all index sequences: body letters 1..na at any position, tail letters na+1..na+nt only last
